@@ -168,3 +168,26 @@ CHECKS["C16"] = dict(
     note=("Bounds: <= 4 nodes, pool of 6 methods, histories of 4-7 operations (quick: 500 random + 112 structured derivation chains; thorough: 8000 random, "
           "5-9 operations), forests with fan-in <= 2 without diamonds. Two defects found by this check were repaired (4f35687, 0977ac3)."),
 )
+
+CHECKS["C08"] = dict(
+    engine="symx", category="model_checking", design_ref="DESIGN.md §6 C08",
+    technique="symbolic execution of the real adapt/recode + dispatch of recursive methods in graphs of derived functions over a symbolic leaf hierarchy and priorities (z3); differential oracle against a flat underived function",
+    text=("Graphs of functions built with copy / variant / add_mixins / register (random build histories plus the documented walker/variant patterns) "
+          "place recursive container methods (list and dict via recurse, one reaching recurse through a closure cell, tuple via the root function's own "
+          "name, an overriding container) and leaf methods (overriding ones, one using call_next) on the nodes. Every node is called with six nested "
+          "inputs once per class of (leaf hierarchy, priorities); result and leaf-entry log must equal those of a fresh underived function carrying the "
+          "node's flattened method list, children first and every ancestor again afterwards; any error other than the two dispatch errors is a violation."),
+    note=("Bounds: <= 5 nodes, 10 pool methods, build histories of 3-6 operations (600 sampled quick / 8000 thorough + 5 patterns), inputs nested to depth 3. "
+          "The flat reference is itself an ovld function (recurse there trivially means 'this function')."),
+)
+CHECKS["C17"] = dict(
+    engine="symx", category="model_checking", design_ref="DESIGN.md §6 C17",
+    technique="symbolic execution of the real metaclass / class-namespace merging and bound-method dispatch over a symbolic argument hierarchy (z3) for generated class programs; per-class reference table + flat-function differential oracle",
+    text=("Programs of 2-5 user classes (OvldBase or metaclass=OvldMC roots, subclasses with one or two bases, a mixin class without the metaclass) with "
+          "0-3 same-named definitions per body and extend_super markers are generated as source and executed; after all classes exist, instances of every "
+          "class are probed once per class of argument hierarchies. The expected behaviour of each class comes from a method table computed by the "
+          "generator (own definitions; with extend_super the tables of all bases first, identical signatures replaced; a single definition is an "
+          "ordinary method) realised as a flat overloaded function of module-level twins; chains, results/errors and the identity of self must agree."),
+    note=("Bounds: 900 sampled programs quick / 10000 thorough; bodies return / call_next / recurse over a nested list; the program quantifier is enumerated, "
+          "only the argument hierarchy is symbolic. extend_super on a non-first definition and priorities inside class bodies are outside the claim."),
+)
